@@ -513,6 +513,43 @@ def rule_s10(ctx, F):
     ctx.analysed["users_of_relevant_child_count"] = users
 
 
+MODE_LITERAL_TABLED = {
+    ("ts_node__relevant_child_count", "ts_node__is_relevant"): "asks whether the node is visible at all (mode-independent question; see S10)",
+}
+
+
+def rule_s11(ctx, F):
+    """S11: the named-only / all-nodes mode is threaded unchanged.  A function that is given `include_anonymous` passes
+    that very parameter to every helper that takes the mode (ts_node__is_relevant, ts_node__relevant_child_count, the
+    child / sibling / descendant walks); a literal in its place makes one step of a named-only walk count anonymous nodes
+    (or the reverse), so previous/next named sibling and named child disagree with the tree."""
+    MODE = "include_anonymous"
+    takes = {}
+    for fn in F.fn_list:
+        for i, p in enumerate(fn.params):
+            if p["name"] == MODE:
+                takes[fn.name] = i
+    n = 0
+    for fn in F.fn_list:
+        if fn.name not in takes or not fn.blocks:
+            continue
+        pid = fn.params[takes[fn.name]]["id"]
+        for pt, c in fn.calls():
+            cal = callee_name(c)
+            if cal not in takes or takes[cal] >= len(c.get("a", [])):
+                continue
+            n += 1
+            a = strip(c["a"][takes[cal]])
+            key = "%s:%s:mode-threaded" % (fn.name, cal)
+            if a.get("k") == "ref" and a.get("id") == pid:
+                ctx.ok("S11", key, "passes its own include_anonymous on", nontrivial=False)
+            elif (fn.name, cal) in MODE_LITERAL_TABLED:
+                ctx.ok("S11", key, "tabled: " + MODE_LITERAL_TABLED[(fn.name, cal)], nontrivial=False)
+            else:
+                ctx.bad("S11", key, "%s calls %s with `%s` where its own include_anonymous belongs (%s): this step of the walk runs in the other mode" % (fn.name, cal, show(a)[:30], fn.loc(pt)), {"site": fn.loc(pt)})
+    ctx.floor("mode-taking calls inside mode-taking functions", n, 8)
+
+
 def rule_s8(ctx, F):
     """S8: a field lookup answers only from map entries of the requested field.  The entries of a production are
     sorted by field id; ts_node_child_by_field_id narrows [field_map, field_map_end) from both sides and then
@@ -591,6 +628,7 @@ def run(ctx):
         rule_s8(ctx, F)
         rule_s9(ctx, F)
         rule_s10(ctx, F)
+        rule_s11(ctx, F)
         rule_v1(ctx, F)
     return ctx.finish(
         "Sibling-agreement (CFG isomorphism under substitution), field-coverage and index-width rules over node.c / tree_cursor.c: byte- and point-range "
